@@ -242,4 +242,11 @@ Definition vertex_normals (w : weighting) (ang : list T) (m : mesh T) : list (ve
   map (g_vertex_normal_finish o)
       (interpolate_faces_to_vertices (vzero o) (vadd o) (vscale o) (vdiv o) w (face_area m) ang m (face_normals m)).
 
+
+(* vertex_normals(custom_fnormals=fn): the caller's own face normals are interpolated (the explicit argument wins over
+   any cached "normals" attribute: g_vn_source) *)
+Definition vertex_normals_custom (w : weighting) (ang : list T) (m : mesh T) (fn : list (vec T)) : list (vec T) :=
+  map (g_vertex_normal_finish o)
+      (interpolate_faces_to_vertices (vzero o) (vadd o) (vscale o) (vdiv o) w (face_area m) ang m fn).
+
 End Mesh.
